@@ -69,6 +69,24 @@ func (c *Ctx) heapWFAxiom(key, name string) string {
 	if key == "Ptr" {
 		return fmt.Sprintf("(forall ((o Int) (i Int)) (! (and (>= (pobj (select (select %s o) i)) 0) (< (pobj (select (select %s o) i)) %s)) :pattern ((select (select %s o) i))))", name, name, bound, name)
 	}
+	if strings.HasPrefix(key, "map!") && strings.HasSuffix(key, "!val") {
+		// values stored in maps are allocated references
+		parts := strings.Split(key, "!")
+		if len(parts) == 4 {
+			cell := fmt.Sprintf("(select (select %s o) k)", name)
+			switch mapValSort(parts[2]) {
+			case "Ptr":
+				return fmt.Sprintf("(forall ((o Int) (k %s)) (! (and (>= (pobj %s) 0) (< (pobj %s) %s)) :pattern (%s)))", parts[1], cell, cell, bound, cell)
+			case "Slice":
+				return fmt.Sprintf("(forall ((o Int) (k %s)) (! (and (wfslice %s) (< (sobj %s) %s)) :pattern (%s)))", parts[1], cell, cell, bound, cell)
+			case "Int":
+				if strings.Contains(parts[2], "@") {
+					return fmt.Sprintf("(forall ((o Int) (k %s)) (! (and (>= %s 0) (< %s %s)) :pattern (%s)))", parts[1], cell, cell, bound, cell)
+				}
+			}
+		}
+		return ""
+	}
 	if key != "Slice" {
 		if t, ok := sortTypes[key]; ok {
 			cell := fmt.Sprintf("(select (select %s o) i)", name)
@@ -87,7 +105,7 @@ func (c *Ctx) wantSliceWF(key, name string) {
 	if c.declared["slicewf:"+name] {
 		return
 	}
-	if key != "Slice" && key != "Ptr" {
+	if key != "Slice" && key != "Ptr" && !(strings.HasPrefix(key, "map!") && strings.HasSuffix(key, "!val")) {
 		if _, ok := sortTypes[key]; !ok {
 			return
 		}
@@ -597,6 +615,9 @@ func (c *Ctx) newFrame(fn *ssa.Function, contract *FuncContract, depth int) *fra
 					if v, isVar := obj.(*types.Var); isVar && v.IsField() {
 						continue // x.f: the selector's field is not a variable named f
 					}
+					if _, isFunc := obj.(*types.Func); isFunc {
+						continue // pkg.F / x.M: a callee is not a variable
+					}
 					fr.debug[obj.Name()] = append(fr.debug[obj.Name()], d)
 				} else if d.Expr != nil {
 					// expression reference: indexed by its source text, e.g. `p2.Polygons()`
@@ -891,6 +912,16 @@ func (fr *frame) loopWrites(li *loopInfo) (map[string]bool, map[*ssa.Alloc]bool,
 	for k := range keys {
 		if strings.HasPrefix(k, "+") {
 			delete(keys, k)
+		}
+	}
+	for k := range keys {
+		parts := strings.Split(k, "!")
+		if len(parts) == 3 && parts[0] == "map" {
+			delete(keys, k)
+			fr.c.heapSorts[k+"!dom"] = "(Array Int (Array " + parts[1] + " Bool))"
+			fr.c.heapSorts[k+"!val"] = "(Array Int (Array " + parts[1] + " " + mapValSort(parts[2]) + "))"
+			keys[k+"!dom"] = true
+			keys[k+"!val"] = true
 		}
 	}
 	if keys["*"] {
